@@ -14,6 +14,9 @@ CHECKS = {
  "C03": ("exploration", "exhaustive enumeration of a bounded index box plus Hypothesis-generated nested parents; oracle = Python list indexing",
          "Every index of the bounded box on a Signal parent (complete) and sampled indices on nested slice/concat/port-reference/bundle-reference parents are built, width-queried, connected, elaborated and exported; acceptance, reported width and the exported bit sequence are compared with Python's own list indexing.",
          "Trusts Python list slicing and the package reader; nested parents sampled; acceptance is only required where the statement requires it."),
+ "C04": ("exploration", "history-based property testing: generated interleaved connect/replace/disconnect histories per module, model of the final mapping as oracle (isomorphism), step-wise Instance.conns agreement, metamorphic comparison with the history-free design",
+         "Every module of a generated design is given an interleaved operation history in which each port is first tied to 0-3 other connectables of any kind, possibly disconnected or replace()d, and finally to its real connection; Instance.conns must equal the running mapping after every step, the exported package must be isomorphic to the reference interpreter's circuit of the final mapping, and a history must not make a design un-elaboratable that elaborates when written directly.",
+         "The reference interpreter sees only the final mapping; references made by replaced connections are treated as not live; sampled, with the replaced-kind x replacing-kind matrix reported."),
  "C05": ("exploration", "metamorphic property-based testing: adversarial renaming of designer objects onto the names Hdl21 invents, C01 differential oracle plus name-uniqueness",
          "Designs are exported once to learn the names the elaborator invents per module; designer signals, ports, instances, bundle instances and no-connect names are then renamed onto those names (and '_' variants); the renamed design must raise or export a package with pairwise distinct names that is isomorphic to the reference interpreter's circuit.",
          "Relies on the reference interpreter being name-agnostic; top-level bundle ports are made internal so port names are designer-chosen; sampled."),
